@@ -105,6 +105,26 @@ def load_known():
         return json.load(f)["findings"]
 
 
+def alpha(construct):
+    """Spelling-independent form of a construct that is a complete Python statement/expression: every plain name
+    that is not the callee of a call is replaced by a placeholder numbered by first appearance (so renaming a
+    local variable does not turn a listed finding into a new one).  None for anything else."""
+    import ast
+
+    try:
+        tree = ast.parse(construct)
+    except (SyntaxError, ValueError):
+        return None
+    callees = {id(n.func) for n in ast.walk(tree) if isinstance(n, ast.Call)}
+    names = {}
+    # deterministic source order
+    for n in sorted((n for n in ast.walk(tree) if isinstance(n, ast.Name)), key=lambda n: (n.lineno, n.col_offset)):
+        if id(n) in callees:
+            continue
+        n.id = names.setdefault(n.id, "_v%d" % len(names))
+    return ast.dump(tree)
+
+
 def match_known(ob, known, prop):
     for k in known:
         if k.get("status") != "known":
@@ -112,8 +132,13 @@ def match_known(ob, known, prop):
         if k["property"] != prop or k["rule"] != ob.rule:
             continue
         kk = k["key"]
-        if kk.get("file") == ob.file and kk.get("unit") == ob.unit and norm(kk.get("construct", "")) == ob.construct:
-            return k
+        if kk.get("file") == ob.file and kk.get("unit") == ob.unit:
+            kc = norm(kk.get("construct", ""))
+            if kc == ob.construct:
+                return k
+            a = alpha(ob.construct)
+            if a is not None and a == alpha(kc):
+                return k
     return None
 
 
